@@ -117,7 +117,7 @@ func compare(a, b interface{}, c collate) int {
 		case int64:
 			return cmpInt64(at, bt)
 		case float64:
-			return cmpFloat64(float64(at), bt)
+			return cmpIntFloat(at, bt)
 		case string, []byte:
 			return -1
 		default:
@@ -128,7 +128,7 @@ func compare(a, b interface{}, c collate) int {
 		case nil:
 			return 1
 		case int64:
-			return cmpFloat64(at, float64(bt))
+			return -cmpIntFloat(bt, at)
 		case float64:
 			return cmpFloat64(at, bt)
 		case string, []byte:
@@ -182,4 +182,24 @@ func cmpFloat64(a, b float64) int {
 	default:
 		return 1
 	}
+}
+
+// compare an integer with a float without losing precision (converting the
+// int64 to a float64 rounds anything over 2^53). Same logic as SQLite's
+// sqlite3IntFloatCompare().
+func cmpIntFloat(i int64, f float64) int {
+	if f != f {
+		// NaN. SQLite stores those as NULL.
+		return 1
+	}
+	if f < -9223372036854775808.0 {
+		return 1
+	}
+	if f >= 9223372036854775808.0 {
+		return -1
+	}
+	if c := cmpInt64(i, int64(f)); c != 0 {
+		return c
+	}
+	return cmpFloat64(float64(i), f)
 }
